@@ -1,4 +1,4 @@
-import Originium.Model.DiskRecover
+import Originium.Model.DiskProgMain
 import Originium.Model.Wal
 /-! # C14 — losing unsynced file tails in a crash loses no acknowledged commit
 
@@ -45,9 +45,10 @@ theorem C14_lossy_crash (mayContain : TableM → Bytes → Bool)
 
 /-- "nothing is acknowledged, and no file is deleted or relied upon, before the data that replaces it
     has been synced": these are exactly the guards an accepted trace has passed —
-    an acknowledgement needs the batch in the synced part of a wal … -/
+    an acknowledgement needs the batch in the synced part of a wal (or, when the flusher was faster
+    than the acknowledgement, in a published table, which is synced before it is renamed) … -/
 theorem C14_ack_after_sync (s s' : TSt) (b : List E) (h : accept s (.ack b) = some s') :
-    ∀ e ∈ b, e ∈ syncedRecs s.d := by
+    ∀ e ∈ b, e ∈ syncedRecs s.d ∨ e ∈ tableEnts s.d := by
   simp only [accept] at h
   split at h
   · rename_i hg; exact hg
@@ -85,8 +86,37 @@ theorem C14_torn_wal_is_prefix (es : List Codec.Entry) (hw : ∀ e ∈ es, Codec
     ∃ j, Codec.readWal (es.length + 1) ((Codec.walBatch es).take n) = some (es.take j) :=
   let ⟨j, hj, _⟩ := Codec.readWal_torn es hw hl n _ (by omega); ⟨j, hj⟩
 
+/-- every execution of the modelled engine in which each crash may additionally lose any unsynced
+    tails (`Prog.Reach`: a crash step leaves any disk `d'` with `CutOf d d'`; all schedules, any
+    number of crashes and recoveries, crashed recoveries included): at every reachable point Open
+    succeeds and every acknowledged entry is visible unless a newer write replaced it -/
+theorem C14_program_lossy (mayContain : TableM → Bytes → Bool)
+    (hbloom : ∀ t e, e ∈ t.entries → mayContain t e.key.user = true)
+    {s : Prog.PSt} (h : Prog.Reach s) (bs : Nat) :
+    DB.Inv (recover bs s.t.d) ∧
+    ∀ e ∈ s.t.acked, ∀ r, s.t.low ≤ r → e.key.ts ≤ r →
+      ∃ x, DB.get mayContain (recover bs s.t.d) e.key.user r = some x ∧ e.key.ts ≤ x.key.ts ∧ x.key.user = e.key.user := by
+  obtain ⟨hinv, hwf⟩ := Prog.reach_core h
+  refine ⟨recover_inv bs hinv hwf, ?_⟩
+  intro e he r hr her
+  have hk : Kept s.t.d s.t.low e := by
+    rcases hinv.durable e he with h1 | h1 | h1
+    · exact Or.inl (synced_sub_all h1)
+    · exact Or.inr (Or.inl h1)
+    · exact Or.inr (Or.inr h1)
+  obtain ⟨x, hx, h1, _, h3, _⟩ := recover_visible mayContain hbloom bs hinv hwf e hk r hr her
+  exact ⟨x, hx, h1, h3⟩
+
+/-- … and after such a crash the program keeps obeying the rules: recovery and everything after it -/
+theorem C14_program_obeys_rules_after_loss {s : Prog.PSt} (h : Prog.Reach s) {d' : D} (hc : CutOf s.t.d d')
+    {e : Ev} (he : Prog.Emits { t := { s.t with d := d' }, m := Prog.crashMem s.m } e) :
+    ∃ t', accept { s.t with d := d' } e = some t' :=
+  Prog.never_rejected (Prog.Reach.step h (Prog.Step.crash hc)) he
+
 #print axioms C14_lossy_crash
 #print axioms C14_ack_after_sync
+#print axioms C14_program_lossy
+#print axioms C14_program_obeys_rules_after_loss
 #print axioms C14_publish_after_sync
 #print axioms C14_remove_after_replacement
 #print axioms C14_torn_wal_is_prefix
